@@ -3,7 +3,7 @@
    answer membership and is meaningful for infinite streams too. *)
 From Coq Require Import List Permutation ZArith.
 From PV Require Import Model.Term Model.Subst Model.State Model.Engine Spec.StreamSem
-  Proofs.StreamProofs Proofs.EngineProofs Proofs.SemProofs Proofs.MonoProofs Gen.RelDefs.
+  Proofs.StreamProofs Proofs.EngineProofs Proofs.SemProofs Proofs.MonoProofs Proofs.PureElab Proofs.FairProofs Gen.RelDefs.
 Import ListNotations.
 
 (* finite search: what the engine delivers until the stream is exhausted is admissible *)
@@ -68,6 +68,15 @@ Check C06_disjunction : forall defs m n st gs zs,
   ansS (start defs (S m)) (start defs (S n) (CConde BFS gs) st) zs ->
   exists yss, Forall2 (fun c ys => ansS (start defs (S m)) (start defs n c st) ys) gs yss /\ Permutation zs (concat yss).
 Check C06_sound : forall defs n s ys s' a, runs (startq defs) n s ys s' -> In a ys -> inS (startq defs) s a.
+(* loses no answers: on the pure relational fragment (no committed choice, no dfs block; C07) every
+   answer that is derivable in the declarative semantics is delivered after finitely many steps (or an
+   engine step fails with an error outcome first).  With C06_sound_declarative: on that fragment the
+   answers the engine delivers are exactly the derivable ones. *)
+Theorem C06_complete_declarative : forall defs,
+  (forall r d, find_def r defs = Some d -> psrc (d_body d)) ->
+  forall g st a, Sem defs g st a -> pureg g -> exists n, emitsE (startq defs) n (startq defs g st) a.
+Proof. exact fair_complete. Qed.
+
 Print Assumptions C06_finite.
 Print Assumptions C06_disjunction.
 Print Assumptions C06_conjunction.
@@ -76,3 +85,4 @@ Print Assumptions C06_sound_disjunction.
 Print Assumptions C06_sound_conjunction.
 Print Assumptions C06_sound_declarative.
 Print Assumptions C06_answers_extend.
+Print Assumptions C06_complete_declarative.
